@@ -382,6 +382,10 @@ def call_numpy(it, tail, args, kwargs, env, node, chain):
         for c_, v_ in reversed(list(zip(a[0], a[1]))):
             out = make_where(to_term(c_), to_term(v_), out)
         return out
+    if tail == "outer" and len(t) == 2:
+        # np.outer(x, y) of two vectors is x[:, None] * y[None, :]
+        full_ = op("slc", NONE_T, NONE_T, NONE_T)
+        return op("item", t[0], sp.Tuple(full_, NONE_T)) * op("item", t[1], sp.Tuple(NONE_T, full_))
     if tail == "broadcast_arrays" and t:
         return tuple(t)            # the same values, shaped alike
     if tail == "concatenate":
@@ -653,7 +657,14 @@ def call_term_method(it, recv, name, args, kwargs, env, node):
             return r_
         return op("reshape", recv, to_term(shape), to_term(kw(kwargs, "order", "C")))
     if name == "uniform":
-        return op("uniform", recv, *t)
+        # Generator.uniform(lo, hi, size) is lo + (hi - lo) * Generator.random(size): one draw in [0, 1) per element
+        lo_ = t[0] if len(t) > 0 else to_term(kw(kwargs, "low", num(0)))
+        hi_ = t[1] if len(t) > 1 else to_term(kw(kwargs, "high", num(1)))
+        sz_ = t[2] if len(t) > 2 else to_term(kw(kwargs, "size"))
+        return lo_ + (hi_ - lo_) * op("random01", recv, sz_)
+    if name == "random" and fname(recv) in ("rng", "default_rng", "ext_numpy_random_default_rng"):
+        sz_ = t[0] if t else to_term(kw(kwargs, "size"))
+        return op("random01", recv, sz_)
     if name == "conj":
         return sp.conjugate(recv)
     if name == "assign":
